@@ -136,7 +136,9 @@ fn remove_in_class<Z, M>(
         let (entry, remove) = remove_in_class(subnode, name, level - 1);
         if remove {
             node.children.remove(&name[level - 1]);
-            (entry, node.children.is_empty())
+            // A node that still holds an entry must be kept even when
+            // it has no children left.
+            (entry, node.children.is_empty() && node.data.is_none())
         } else {
             (entry, false)
         }
